@@ -769,7 +769,15 @@ func TestC16(t *testing.T) {
 	var samples []c16Sample
 
 	// process one shard (in its own goroutine so that the watchdog can give up on it)
+	var hung sync.Map // parser name -> true once a hang of it was confirmed
+	var afterHang int64
 	runShard := func(si int, sh c16Shard, small bool) {
+		if _, h := hung.Load(sh.p.name); h {
+			// a call of this parser was already reported as not returning: its remaining shards would each
+			// wait stallAfter+confirmAfter for the same verdict
+			atomic.AddInt64(&afterHang, 1)
+			return
+		}
 		var cur atomic.Pointer[[]byte]
 		done := make(chan struct{})
 		go func() {
@@ -856,6 +864,7 @@ func TestC16(t *testing.T) {
 					// the call returns on its own: the shard was merely slow, keep waiting
 					lastChange = time.Now()
 				case <-time.After(confirmAfter):
+					hung.Store(sh.p.name, true)
 					R.Violation(sh.p.name+":hang:call-does-not-return", map[string]any{"parser": sh.p.name, "family": sh.family,
 						"input": fmt.Sprintf("%q", input), "what": fmt.Sprintf("the call did not return within %s in the shard and again not within %s when repeated on its own", stallAfter, confirmAfter)})
 					return
@@ -916,6 +925,9 @@ func TestC16(t *testing.T) {
 			calls := 0
 			var worst = map[string]uint64{}
 			for _, sh := range memShards {
+				if _, h := hung.Load(sh.p.name); h {
+					continue // already reported as not returning
+				}
 				n := 0
 				sh.each(func(in []byte) {
 					if sh.p.confine && !c16Confined(in) {
@@ -966,6 +978,9 @@ func TestC16(t *testing.T) {
 	R.Set("wall_s_allocation_pass", time.Since(tPhase).Seconds())
 	R.State(len(classes))
 	R.Set("inputs_skipped_for_confinement", skipped)
+	if afterHang > 0 {
+		R.Cap(fmt.Sprintf("%d shards of a parser were not run after a call of that parser had been reported as not returning", afterHang))
+	}
 	{
 		per := map[string]int{}
 		for k := range classes {
@@ -1008,6 +1023,9 @@ func TestC16(t *testing.T) {
 		names, _ := c16LongInputs(p)
 		if len(names) == 0 {
 			return
+		}
+		if _, h := hung.Load(p.name); h {
+			return // already reported as not returning
 		}
 		cmd := exec.Command(os.Args[0], "-test.run=^TestC16$", "-test.v", "-test.timeout=20m")
 		cmd.Env = append(os.Environ(), "C16_CHILD="+p.name)
